@@ -7,7 +7,7 @@ func baseOps() map[string]int {
 		"propose_dispute": 5, "add_fee": 3, "vote": 10, "withdraw_fee_refund": 3, "claim_reward": 3, "add_evidence": 1, "update_team": 1,
 		"request_attestations": 3, "withdraw_tokens": 3, "claim_deposits": 3, "deposit_report": 6, "register_spec": 1,
 		"gov_proposal": 1, "gov_vote": 6, "privileged_direct": 1, "multi": 3, "wrong_signer": 2, "create_validator": 1, "unjail_validator": 3,
-		"cancel_unbonding": 1, "tie_reports": 2, "tie_vote": 2,
+		"cancel_unbonding": 1, "tie_reports": 2, "tie_vote": 2, "double_report": 3, "dispute_round": 2,
 	}
 }
 
@@ -42,22 +42,24 @@ func ProfileFor(id, tier string) *Profile {
 		bump(map[string]int{"tie_reports": 25, "register_spec": 4, "create_reporter": 12, "submit_value": 40})
 		p.Witnesses = [2]int{1, 3}
 		p.LongFrac = 0.05
+		p.TinyStakes = 0.4
 	case "C02":
 		p.BigGaps = 0.04
 		bump(map[string]int{"gov_proposal": 3, "gov_vote": 12, "propose_dispute": 8, "vote": 10, "tie_vote": 8})
 	case "C03":
 		bump(map[string]int{"gov_proposal": 3, "gov_vote": 12, "tip": 25, "withdraw_tokens": 6, "claim_deposits": 5})
 		p.OneTxBlocks = 0.3
+		p.LongFrac = 0.15
 	case "C04", "C09":
-		bump(map[string]int{"tip": 25, "create_reporter": 12, "select_reporter": 10, "switch_reporter": 4, "withdraw_tip": 8, "gov_proposal": 2, "gov_vote": 10})
+		bump(map[string]int{"tip": 25, "create_reporter": 12, "select_reporter": 10, "switch_reporter": 4, "withdraw_tip": 8, "gov_proposal": 3, "gov_vote": 12, "double_report": 12})
 	case "C05", "C10":
-		bump(map[string]int{"delegate": 10, "undelegate": 10, "redelegate": 8, "cancel_unbonding": 3, "propose_dispute": 10, "add_fee": 6, "withdraw_fee_refund": 6, "withdraw_tip": 8, "select_reporter": 10, "switch_reporter": 5, "create_validator": 2})
+		bump(map[string]int{"delegate": 10, "undelegate": 10, "redelegate": 8, "cancel_unbonding": 3, "propose_dispute": 10, "add_fee": 6, "withdraw_fee_refund": 6, "withdraw_tip": 8, "select_reporter": 10, "switch_reporter": 5, "create_validator": 2, "gov_proposal": 3, "gov_vote": 12})
 		p.Faults["partition"] = 0.05
 		p.Candidates = [2]int{0, 2}
 	case "C07", "C08":
-		bump(map[string]int{"tip": 25, "submit_value": 45, "gov_proposal": 3, "gov_vote": 12, "request_attestations": 6, "propose_dispute": 6, "add_evidence": 4, "withdraw_tokens": 5})
+		bump(map[string]int{"tip": 25, "submit_value": 45, "gov_proposal": 3, "gov_vote": 12, "request_attestations": 6, "propose_dispute": 6, "add_evidence": 4, "withdraw_tokens": 5, "double_report": 10})
 	case "C11", "C12", "C13":
-		bump(map[string]int{"propose_dispute": 14, "add_fee": 8, "vote": 20, "tie_vote": 8, "withdraw_fee_refund": 8, "claim_reward": 8, "tip": 14, "redelegate": 5, "undelegate": 5})
+		bump(map[string]int{"propose_dispute": 14, "add_fee": 8, "vote": 20, "tie_vote": 8, "withdraw_fee_refund": 8, "claim_reward": 10, "tip": 14, "redelegate": 5, "undelegate": 5, "dispute_round": 10, "gov_proposal": 2, "gov_vote": 8})
 		p.BigGaps = 0.06
 		p.Faults["aim_deadline"] = 0.3
 	case "C14":
